@@ -37,7 +37,26 @@ logging.getLogger("aiohttp.web").disabled = True
 
 SEGS = ["a", "b", "ab", "a b", "é", "a.b"]
 METHODS = ["GET", "POST", "HEAD", "PUT"]
-HOSTS = ["example.com", "other.org"]
+HOSTS = ["example.com", "other.org", "a.example.com", "a.example.com.evil.org", "A.Example.COM"]
+
+
+def domain_rule_matches(rule: str, host: str) -> bool:
+    """add_domain(): an exact (case-insensitive) host, or a mask whose '*' stands for any run of characters - the whole
+    Host value has to match, not a prefix of it."""
+    rule, host = rule.lower(), host.lower()
+    if "*" not in rule:
+        return rule == host
+    pieces = rule.split("*")
+    if not host.startswith(pieces[0]) or not host.endswith(pieces[-1]) or len(host) < len(pieces[0]) + len(pieces[-1]):
+        return False
+    pos = len(pieces[0])
+    end = len(host) - len(pieces[-1])
+    for mid in pieces[1:-1]:
+        k = host.find(mid, pos, end)
+        if k < 0:
+            return False
+        pos = k + len(mid)
+    return True
 
 
 # ------------------------------------------------------------------ reference model
@@ -132,7 +151,7 @@ class MApp:
         base = self._resolve_index(path, method, host)
         outs = [base]
         for dom, sub in self.domains:
-            if dom == host:
+            if domain_rule_matches(dom, host):
                 r = sub.resolve(path, method, host)
                 # a matching domain rule hands the request to its sub-application, whose answer (also a 404/405) is
                 # final - either before the index is consulted (code) or after it found nothing (documentation)
@@ -382,7 +401,7 @@ def tables(draw, depth: int = 0):
         elif k == 8:
             entries.append(("subapp", draw(st.sampled_from(["/a", "/b", "/a/b", "/ab", "/a b", "/é"])), draw(tables(depth + 1))))
         elif depth <= 1:
-            entries.append(("domain", "example.com", draw(tables(2))))
+            entries.append(("domain", draw(st.sampled_from(["example.com", "example.com", "*.example.com", "a.*"])), draw(tables(2))))
     return entries
 
 
